@@ -23,9 +23,9 @@ EXTENDS WSRecv, Json, IOUtils, Sequences
 
 Log == ndJsonDeserialize(IOEnv.TRACE_FILE)
 
-VARIABLES i, role, scripted, sentq, cur, rem, failed, msg, limI, limSure, rdG, pings, bad, skip
+VARIABLES i, role, scripted, sentq, cur, rem, failed, msg, limI, limSure, rdG, pingq, bad, skip
 (* st, hist, out are WSRecv's variables: decoder state, frames seen, reactions *)
-tvars == <<i, role, scripted, sentq, cur, rem, failed, msg, limI, limSure, rdG, pings, bad, skip>>
+tvars == <<i, role, scripted, sentq, cur, rem, failed, msg, limI, limSure, rdG, pingq, bad, skip>>
 allvars == <<vars, tvars>>
 
 (* the message being handed to the application: done = its final frame has been consumed completely (frames read after   *)
@@ -35,11 +35,11 @@ NoCur == [op |-> -1, kind |-> "none", rsv1 |-> FALSE, len |-> 0, code |-> 0]
 DefaultLimit == 32769     \* the library stores limit+1 (it reads one byte more to see the end)
 
 FreshT == /\ role = "server" /\ scripted = FALSE /\ sentq = <<>> /\ cur = NoCur /\ rem = 0 /\ failed = FALSE
-          /\ msg = NoMsg /\ limI = DefaultLimit /\ limSure = TRUE /\ rdG = 0 /\ pings = 0
+          /\ msg = NoMsg /\ limI = DefaultLimit /\ limSure = TRUE /\ rdG = 0 /\ pingq = <<>>
 TInit == Init /\ i = 1 /\ FreshT /\ bad = {} /\ skip = FALSE /\ TLCSet(1, 1) /\ TLCSet(2, 0)
 
 e == Log[i]
-tstate == <<role, scripted, sentq, cur, rem, failed, msg, limI, limSure, rdG, pings>>
+tstate == <<role, scripted, sentq, cur, rem, failed, msg, limI, limSure, rdG, pingq>>
 Same == UNCHANGED <<vars, tstate, bad, skip>>
 Fail(why) == /\ bad' = bad \cup {why} /\ skip' = TRUE /\ TLCSet(2, TLCGet(2) + 1) /\ PrintT(<<"REJECTED", i, why, e>>)
              /\ UNCHANGED <<vars, tstate>>
@@ -59,7 +59,7 @@ HeaderStep ==
       f == FrameOf(e.a, e.b, e.d, sent.code)
       r == React(st, f, Len(hist) + 1, Flate)
   IN IF st.dead THEN /\ cur' = NoCur /\ failed' = FALSE
-                     /\ UNCHANGED <<vars, role, scripted, sentq, rem, msg, limI, limSure, rdG, pings, bad, skip>>
+                     /\ UNCHANGED <<vars, role, scripted, sentq, rem, msg, limI, limSure, rdG, pingq, bad, skip>>
      ELSE IF rem # 0 THEN Fail("frame-header-parsed-inside-previous-payload")
      ELSE IF scripted /\ sentq = <<>> THEN Fail("frame-parsed-that-the-peer-never-sent")
      ELSE IF scripted /\ (sent.op # e.a \/ sent.flags # e.b \/ sent.len # e.d) THEN Fail("frame-header-differs-from-the-one-sent")
@@ -68,10 +68,9 @@ HeaderStep ==
           /\ rem' = IF e.d < 0 THEN 0 ELSE e.d
           /\ failed' = (r.kind = "fail")
           /\ sentq' = IF scripted THEN Tail(sentq) ELSE sentq
-          /\ pings' = IF r.kind = "pong" THEN pings + 1 ELSE pings
           /\ rdG' = e.g
           /\ msg' = IF msg.on /\ ~msg.done /\ r.kind = "last" /\ e.d = 0 THEN [msg EXCEPT !.done = TRUE] ELSE msg
-          /\ UNCHANGED <<role, scripted, limI, limSure, bad, skip>>
+          /\ UNCHANGED <<role, scripted, limI, limSure, pingq, bad, skip>>
 
 PayloadStep(n) ==
   IF ~Live \/ failed THEN Same
@@ -79,7 +78,7 @@ PayloadStep(n) ==
   ELSE /\ rem' = rem - n
        /\ msg' = IF cur.op \in DataOps /\ msg.on /\ ~msg.done
                  THEN [msg EXCEPT !.bytes = @ + n, !.done = (rem = n /\ cur.kind \in {"whole", "last"})] ELSE msg
-       /\ UNCHANGED <<vars, role, scripted, sentq, cur, failed, limI, limSure, rdG, pings, bad, skip>>
+       /\ UNCHANGED <<vars, role, scripted, sentq, cur, failed, limI, limSure, rdG, pingq, bad, skip>>
 
 Step ==
   /\ i <= Len(Log) /\ i' = i + 1
@@ -87,26 +86,28 @@ Step ==
        [] e.ev = "TraceReset" ->
             /\ st' = St0 /\ hist' = <<>> /\ out' = <<>>
             /\ role' = "server" /\ scripted' = FALSE /\ sentq' = <<>> /\ cur' = NoCur /\ rem' = 0 /\ failed' = FALSE
-            /\ msg' = NoMsg /\ limI' = DefaultLimit /\ limSure' = TRUE /\ rdG' = 0 /\ pings' = 0 /\ skip' = FALSE /\ UNCHANGED bad
+            /\ msg' = NoMsg /\ limI' = DefaultLimit /\ limSure' = TRUE /\ rdG' = 0 /\ pingq' = <<>> /\ skip' = FALSE /\ UNCHANGED bad
        [] e.ev = "ConnNew" ->
             /\ role' = (IF e.a = 1 THEN "client" ELSE "server")
-            /\ UNCHANGED <<vars, scripted, sentq, cur, rem, failed, msg, limI, limSure, rdG, pings, bad, skip>>
+            /\ UNCHANGED <<vars, scripted, sentq, cur, rem, failed, msg, limI, limSure, rdG, pingq, bad, skip>>
        [] e.ev = "PeerScripted" ->
-            scripted' = TRUE /\ UNCHANGED <<vars, role, sentq, cur, rem, failed, msg, limI, limSure, rdG, pings, bad, skip>>
+            scripted' = TRUE /\ UNCHANGED <<vars, role, sentq, cur, rem, failed, msg, limI, limSure, rdG, pingq, bad, skip>>
        [] e.ev = "PeerSent" ->
             /\ sentq' = Append(sentq, [op |-> e.a, flags |-> e.b, len |-> e.d, code |-> e.e])
-            /\ UNCHANGED <<vars, role, scripted, cur, rem, failed, msg, limI, limSure, rdG, pings, bad, skip>>
+            /\ UNCHANGED <<vars, role, scripted, cur, rem, failed, msg, limI, limSure, rdG, pingq, bad, skip>>
        [] e.ev = "RdHeader" -> HeaderStep
        [] e.ev \in {"RdPayload", "RdPayErr", "RdPayClosed"} -> PayloadStep(e.a)
        [] e.ev = "SetLimit" ->
             \* a limit set by another goroutine while frames are being read cannot be ordered against the reader by the trace
             /\ limI' = e.a /\ limSure' = (limSure /\ (rdG = 0 \/ rdG = e.g))
-            /\ UNCHANGED <<vars, role, scripted, sentq, cur, rem, failed, msg, rdG, pings, bad, skip>>
+            /\ UNCHANGED <<vars, role, scripted, sentq, cur, rem, failed, msg, rdG, pingq, bad, skip>>
        [] ~Live -> Same
        \* ---------------- control frames ----------------
        [] e.ev = "CtlPayload" ->
             IF failed THEN (IF e.a # OpClose THEN Fail("control-frame-with-violation-processed") ELSE Same)   \* a Close body is validated after it is read
             ELSE IF cur.op # e.a \/ rem # 0 THEN Fail("control-payload-not-of-the-current-frame")
+            ELSE IF e.a = OpPing THEN /\ pingq' = Append(pingq, e.s)      \* pings to be answered, in the order received
+                                      /\ UNCHANGED <<vars, role, scripted, sentq, cur, rem, failed, msg, limI, limSure, rdG, bad, skip>>
             ELSE Same
        [] e.ev = "PongRcvd" ->
             IF failed THEN Fail("violating-frame-acted-on:pong") ELSE Same
@@ -116,30 +117,32 @@ Step ==
             ELSE IF scripted /\ cur.len = 0 /\ (e.a # 1005 \/ e.b # 0) THEN Fail("close-error-differs-from-the-frame")
             ELSE IF scripted /\ cur.len >= 2 /\ (e.a # cur.code \/ e.b # cur.len - 2) THEN Fail("close-error-differs-from-the-frame")
             ELSE Same
-       [] e.ev = "WfHeader" /\ e.a = OpPong ->
-            IF pings = 0 THEN Fail("pong-written-without-a-received-ping")
-            ELSE pings' = pings - 1 /\ UNCHANGED <<vars, role, scripted, sentq, cur, rem, failed, msg, limI, limSure, rdG, bad, skip>>
+       \* every Pong frame written (hook WfCtl, payload as written) answers the oldest unanswered Ping, byte for byte
+       [] e.ev = "WfCtl" /\ e.a = OpPong ->
+            IF pingq = <<>> THEN Fail("pong-written-without-a-received-ping")
+            ELSE IF Head(pingq) # e.s THEN Fail("pong-does-not-echo-the-next-received-ping")
+            ELSE pingq' = Tail(pingq) /\ UNCHANGED <<vars, role, scripted, sentq, cur, rem, failed, msg, limI, limSure, rdG, bad, skip>>
        \* ---------------- messages ----------------
        [] e.ev = "MsgStart" ->
             IF failed THEN Fail("message-started-from-a-violating-frame")
             ELSE IF cur.kind \notin {"whole", "first"} \/ cur.op # e.a \/ cur.rsv1 # (e.b = 1) THEN Fail("message-start-does-not-match-its-first-frame")
             ELSE /\ msg' = [on |-> TRUE, comp |-> cur.rsv1, handed |-> 0, bytes |-> 0, lim |-> limI, sure |-> limSure,
                             done |-> (cur.kind = "whole" /\ rem = 0)]
-                 /\ UNCHANGED <<vars, role, scripted, sentq, cur, rem, failed, limI, limSure, rdG, pings, bad, skip>>
+                 /\ UNCHANGED <<vars, role, scripted, sentq, cur, rem, failed, limI, limSure, rdG, pingq, bad, skip>>
        [] e.ev = "MrRead" ->
             LET h == msg.handed + e.a IN
             IF ~msg.on THEN (IF e.a > 0 THEN Fail("bytes-handed-over-without-a-message") ELSE Same)
             ELSE IF msg.sure /\ msg.lim >= 0 /\ h > msg.lim THEN Fail("more-than-limit-plus-one-bytes-handed-over")
             ELSE IF ~msg.comp /\ h > msg.bytes THEN Fail("more-bytes-handed-over-than-received-for-the-message")
             ELSE /\ msg' = [msg EXCEPT !.handed = h]
-                 /\ UNCHANGED <<vars, role, scripted, sentq, cur, rem, failed, limI, limSure, rdG, pings, bad, skip>>
+                 /\ UNCHANGED <<vars, role, scripted, sentq, cur, rem, failed, limI, limSure, rdG, pingq, bad, skip>>
        [] e.ev = "MrEnd" ->
             IF ~msg.on THEN Same          \* reading again after the end reports the end again
             ELSE IF ~msg.done THEN Fail("clean-end-of-an-incomplete-message")
             ELSE IF ~msg.comp /\ msg.handed # msg.bytes THEN Fail("message-reported-complete-with-bytes-missing")
             ELSE IF msg.sure /\ msg.lim >= 0 /\ msg.handed > msg.lim - 1 THEN Fail("message-beyond-the-limit-reported-complete")
             ELSE /\ msg' = NoMsg
-                 /\ UNCHANGED <<vars, role, scripted, sentq, cur, rem, failed, limI, limSure, rdG, pings, bad, skip>>
+                 /\ UNCHANGED <<vars, role, scripted, sentq, cur, rem, failed, limI, limSure, rdG, pingq, bad, skip>>
        [] e.ev = "LrLimitHit" ->
             IF msg.on /\ msg.sure /\ msg.lim >= 0 /\ msg.handed < msg.lim THEN Fail("read-limit-error-before-the-limit")
             ELSE Same
